@@ -269,6 +269,9 @@
 
 mod socket;
 pub mod tls;
+#[cfg(feature = "verif-hooks")]
+#[doc(hidden)]
+pub mod verif;
 
 pub(crate) mod portmapper;
 pub(crate) mod runtime;
